@@ -145,7 +145,7 @@ def describe(trace, l, clause):
     month = sum(1 for e in trace["ev"][:l - 1] if e["ev"] == "EndMonth")
     key = "%s:%s" % (clause, ev.get("ev"))
     if clause == "FlowsNonNeg" and ev.get("ev") == "Births":
-        key += ":%s:%s" % (job["cc"], ev.get("s"))    # (a property of the country's herd data: keyed by country and species)
+        key += ":%s:%s:month%d" % (job["cc"], ev.get("s"), month)    # (a property of the country's herd data: keyed by country, species and month)
     what = "%s %s feed=%s grass=%s month=%d event=%s species=%s" % (
         job["cc"], job["strategy"], job["feed"], job["grass"], month, ev.get("ev"), ev.get("s"))
     return key, what, dict(job=job, month=month, event_index=l, event=ev, clause=clause)
